@@ -13,7 +13,8 @@ for d in benign/*/; do
   if ! (cd "$S/repo" && patch -s -p1 < "$OLDPWD/$d/patch.diff" >/dev/null 2>&1); then echo "BENIGN $d: patch does not apply"; rm -rf "$S"; fail=1; continue; fi
   for prop in $(cat "$d/props"); do
     out=$(VERIF_NO_REPLAY=1 VERIF_REPO="$S/repo" VERIF_SCRATCH_OUT="$S/out" ./check "$prop" quick 2>&1); rc=$?
-    if [ $rc -eq 0 ]; then echo "quiet    $(basename $d) [$prop]"; else
+    if [ $rc -eq 0 ]; then echo "quiet    $(basename $d) [$prop]"; elif [ -f "$d/expected-alarm" ]; then
+      echo "EXPECTED-ALARM $(basename $d) [$prop]: $(head -1 "$d/expected-alarm")"; else
       echo "ALARM    $(basename $d) [$prop] rc=$rc: $(echo "$out" | grep '^VIOLATION' | head -3 | sed 's/.*obligation=//' | tr '\n' ' ')"; fail=1; fi
   done
   rm -rf "$S"
